@@ -56,6 +56,11 @@ Definition regex_lib : list (list N * bool) :=
   ; ([94; 46; 123; 50; 44; 52; 125; 36]%N, true)       (* ^.{2,4}$ *)
   ; ([98; 123; 50; 125]%N, true)                       (* b{2} *)
   ; ([40; 63; 105; 41; 94; 107; 91; 48; 45; 57; 93; 43; 36]%N, true)   (* (?i)^k[0-9]+$ *)
+  ; ([94; 92; 112; 123; 71; 114; 101; 101; 107; 125; 43; 36]%N, true)   (* ^\p{Greek}+$ *)
+  ; ([92; 112; 123; 65; 108; 112; 104; 97; 98; 101; 116; 105; 99; 125]%N, true)   (* \p{Alphabetic} *)
+  ; ([94; 92; 112; 123; 76; 117; 125; 92; 112; 123; 76; 108; 125; 43; 36]%N, true)   (* ^\p{Lu}\p{Ll}+$ *)
+  ; ([92; 112; 123; 67; 121; 114; 105; 108; 108; 105; 99; 125; 124; 92; 112; 123; 72; 97; 110; 125]%N, true)   (* \p{Cyrillic}|\p{Han} *)
+  ; ([40; 63; 105; 41; 94; 92; 119; 43; 92; 98; 36]%N, true)   (* (?i)^\w+\b$ *)
   ; ([40]%N, false)                                    (* (   *)
   ; ([91; 97; 45]%N, false)                            (* [a- *)
   (* keyed by the value of the literal: a backslash is the single code 92 *)
